@@ -736,6 +736,28 @@ def circuit(rng, frozen=None, with_tags=True):
     return c.freeze() if frozen else c
 
 
+def derived_after_queries(rng):
+    """A value derived through a public with_* method from a value that has already answered queries (hash, parameter
+    names, qubits, keys): whatever the source cached must not leak into the derived value."""
+    import cirq
+    import sympy
+    for _ in range(8):
+        kind = int(rng.integers(2))
+        src = circuit(rng, frozen=True) if kind == 0 else moment(rng, with_tags=False)
+        try:
+            hash(src)
+        except TypeError:
+            continue   # (unhashable contents: other generators cover those)
+        break
+    tag = pick(rng, ["x", 7, "x"] + ([sympy.Symbol("t")] if kind == 0 else []))
+    for q_ in (cirq.is_parameterized, cirq.parameter_names, cirq.measurement_key_names,
+               lambda v: v.qubits if hasattr(v, "qubits") else v.all_qubits()):
+        q_(src)
+    if rbool(rng):
+        _ = src in {src}
+    return src.with_tags(tag)
+
+
 def near_twin_subcircuits(rng):
     """One document holding two different sub-circuits that are as alike as values get: they differ in one number, chosen
     among pairs that Python hashes alike (-1 / -2, 1.0 / 1, 0.0 / -0.0 ...), so that anything that tells sub-circuits apart
@@ -1487,6 +1509,8 @@ def build_generators():
     for i in range(4):
         add("circuitop/%d" % i, circuit_op, "op")
     add("near-twin-subcircuits", near_twin_subcircuits, "circuit")
+    add("derived-after-queries", derived_after_queries)
+    add("derived-after-queries/1", derived_after_queries)
     for i in range(3):
         add("sweep/%d" % i, sweep, "sweep")
     add("resolver", param_resolver)
